@@ -1,4 +1,5 @@
 import InjModel.Model.Sig
+import InjModel.Model.SigText
 import Driver.Util
 import Driver.Arm
 import Driver.Gen
@@ -6,9 +7,9 @@ namespace Driver
 open Inj Inj.Sig
 
 /-- name table: `bool` is identifier 0 (Sig.boolId); others get 1 + position -/
-abbrev Names := List String
+abbrev NameTab := List String
 
-def nameId (ns : Names) (n : String) : Names × Nat :=
+def nameId (ns : NameTab) (n : String) : NameTab × Nat :=
   if n == "bool" then (ns, 0) else
   match ns.findIdx? (· == n) with
   | some i => (ns, i + 1)
@@ -19,7 +20,7 @@ def abiId : Char → Nat
 
 mutual
 /-- prefix-notation descriptor tokens → type (see harness/hx/src/sigs.rs) -/
-partial def parseTy (ns : Names) (toks : List String) : Option (Ty × Names × List String) :=
+partial def parseTy (ns : NameTab) (toks : List String) : Option (Ty × NameTab × List String) :=
   match toks with
   | [] => none
   | t :: rest =>
@@ -65,7 +66,7 @@ partial def parseTy (ns : Names) (toks : List String) : Option (Ty × Names × L
         | none => none
       | none => none
     else none
-partial def parseList (ns : Names) (toks : List String) (n : Nat) : Option (TyList × Names × List String) :=
+partial def parseList (ns : NameTab) (toks : List String) (n : Nat) : Option (TyList × NameTab × List String) :=
   if n == 0 then some (TyList.nil, ns, toks) else
   match parseTy ns toks with
   | some (t, ns', rest) =>
@@ -74,7 +75,7 @@ partial def parseList (ns : Names) (toks : List String) (n : Nat) : Option (TyLi
     | none => none
   | none => none
 /-- F<u><abi>:<n> params… ret -/
-partial def parseFn (ns : Names) (toks : List String) : Option (FnTy × Names × List String) :=
+partial def parseFn (ns : NameTab) (toks : List String) : Option (FnTy × NameTab × List String) :=
   match toks with
   | t :: rest =>
     let cs := t.toList
@@ -91,29 +92,20 @@ partial def parseFn (ns : Names) (toks : List String) : Option (FnTy × Names ×
   | [] => none
 end
 
-def parseDescr (ns : Names) (d : String) : Option (FnTy × Names) :=
+def parseDescr (ns : NameTab) (d : String) : Option (FnTy × NameTab) :=
   match parseFn ns (d.splitOn ".") with
   | some (f, ns', []) => some (f, ns')
   | _ => none
 
-def nameOf (ns : Names) (i : Nat) : String :=
+def nameOf (ns : NameTab) (i : Nat) : String :=
   if i == 0 then "bool" else if i == 9999 then "core::ops::function::Fn" else ns.getD (i - 1) "?"
 
-/-- spell a token list the way rustc spaces `type_name` output -/
-def spell (ns : Names) : List Tok → String
-  | [] => ""
-  | t :: rest =>
-    let s := match t with
-      | Tok.id n => nameOf ns n
-      | Tok.num n => toString n
-      | Tok.amp => "&" | Tok.mut_ => "mut " | Tok.star => "*" | Tok.const_ => "const "
-      | Tok.dyn_ => "dyn "
-      | Tok.lp => "(" | Tok.rp => ")" | Tok.lb => "[" | Tok.rb => "]" | Tok.lt => "<" | Tok.gt => ">"
-      | Tok.comma => (match rest with | Tok.rp :: _ => "," | _ => ", ")
-      | Tok.semi => "; " | Tok.arrow => " -> "
-      | Tok.fn_ => "fn" | Tok.unsafe_ => "unsafe "
-      | Tok.extern_ a => "extern \"" ++ (if a == 1 then "C" else if a == 2 then "system" else "?") ++ "\" "
-    s ++ spell ns rest
+/-- spell a token list the way rustc spaces `type_name` output: the *model's* `Sig.spellC` (the function
+    `Props/C10.C10_gate_text` is about), with this run's name table; `sigty` lines compare it with rustc -/
+def spell (ns : NameTab) (toks : List Tok) : String :=
+  String.ofList (Sig.spellC
+    { id := fun n => (nameOf ns n).toList, num := fun n => (toString n).toList,
+      abi := fun a => (if a == 1 then "C" else if a == 2 then "system" else "?").toList } toks)
 
 /-- `sigty <idx> <descr> | raw=… canon=…` : the model's rendering vs rustc's -/
 def handleSigTy (args obs : List String) : Verdict :=
